@@ -9,7 +9,7 @@ use std::f64::consts::PI;
 
 pub fn monitor() -> Monitor {
   Monitor { id: "C16",
-    rule: "(a) every cell of depths <= 7 (quick) / <= 9 (thorough) + class-sampled cells of every deeper depth: true largest centre-to-vertex distance (reference geometry) vs largest_center_to_vertex_distance at the centre and at 2 random interior positions of the cell; (b) cones (centre from the sphere/pole/seam/transition generators, radius 0.02..40 cell sizes, capped at pi/2): the *_with_radius bound (single and multi-depth forms) vs the true value of every cell whose centre is within the radius — cells found by hashing sample points of the cone (brute force over all cells for depth <= 4); (c) best_starting_depth: monotone, equal to a linear scan of the thresholds located by bisection, refusal of radii >= the depth-0 limit consistent with has_best_starting_depth, and containment of 96 boundary points of the cone in the centre cell + neighbours for radii at (1-{1e-12..0.3}) x threshold with centres aimed at seams, poles, transition latitude. Non-trivial = cell on a base-cell border/corner, cone containing a pole or straddling the transition latitude / LAT_OF_SQUARE_CELL, radius within 5% of a threshold.",
+    rule: "(a) every cell of depths <= 7 (quick) / <= 9 (thorough) + class-sampled cells of every deeper depth: true largest centre-to-vertex distance (reference geometry) vs largest_center_to_vertex_distance at the centre and at 2 random interior positions of the cell; (b) cones (centre from the sphere/pole/seam/transition generators, radius 0.02..40 cell sizes, capped at pi/2): the *_with_radius bound (single and multi-depth forms) vs the true value of every cell whose centre is within the radius — cells found by hashing sample points of the cone (brute force over all cells for depth <= 4); (c) best_starting_depth: monotone, equal to a linear scan of the thresholds located by bisection, refusal of radii >= the depth-0 limit consistent with has_best_starting_depth, and containment of 96 boundary points of the cone in the centre cell + neighbours for radii at (1-{1e-12..0.3}) x threshold with centres aimed at seams, poles, transition latitude; plus, per depth, 6 witness cones built on the thinnest cell of the depth found by the reference geometry (width W): centre just outside one edge, radius W(1 +- {3e-4,3e-3,3e-2}), probe through the nearest point of the opposite edge. Non-trivial = cell on a base-cell border/corner, cone containing a pole or straddling the transition latitude / LAT_OF_SQUARE_CELL, radius within 5% of a threshold.",
     assumptions: &["reference cell geometry; Layer::hash (C01) and Layer::neighbours (C04) for the containment claim", "distances carry an absolute slack of 1e-15 rad and a relative one of 1e-12"],
     run, replay }
 }
@@ -40,7 +40,7 @@ fn run(ctx: &mut Ctx, extra: &mut BTreeMap<String, String>) {
     }
     for _ in 0..n_cones / shards { let (case, _) = gen_cone(&mut rng); judge_cone(c, &case); }
     for _ in 0..n_bsd / shards { let case = gen_bsd(&mut rng, thr_ref); judge_bsd(c, &case, thr_ref); }
-    if k == 0 { bsd_table(c, thr_ref); }
+    if k == 0 { bsd_table(c, thr_ref); for case in witness_cases() { judge_bsd(c, &case, thr_ref); } }
   });
 }
 
@@ -126,6 +126,26 @@ pub fn judge_cone(ctx: &mut Ctx, c: &Case) {
   if ctx.samples.len() < 4 && la + r >= PI / 2.0 { ctx.sample(c, &format!("bound={:e} worst true={:e} over {} cells", b, worst.0, n_in)); }
 }
 
+/// Cones built from the reference data of bsd_witness.rs: for each depth d the thinnest cell found by the reference geometry, of
+/// width W (distance p-q between two opposite edges). Centre: just outside the cell, at m.W/3 from p on the side away from q;
+/// radius W(1+m) (the cone crosses the whole thin cell and overshoots its opposite edge by 2mW/3: it leaves the 3x3 block at depth d,
+/// so best_starting_depth must answer a shallower depth) and W(1-m) (stays inside). The probe towards q is added to the 96 bearings.
+pub fn witness_cases() -> Vec<Case> {
+  let mut v = Vec::new();
+  for &(d, wb, pb, qb) in super::bsd_witness::BSD_WITNESS.iter() {
+    let w = f64::from_bits(wb); let (p, q) = ((f64::from_bits(pb[0]), f64::from_bits(pb[1])), (f64::from_bits(qb[0]), f64::from_bits(qb[1])));
+    let (vp, vq) = (v3(p), v3(q)); let c = dot(vp, vq);
+    let mut t = [vq[0] - c * vp[0], vq[1] - c * vp[1], vq[2] - c * vp[2]]; let nt = norm(t); if !(nt > 0.0) { continue; } t = [t[0] / nt, t[1] / nt, t[2] / nt];
+    for &m in [3e-4, 3e-3, 3e-2].iter() { for &sgn in [1.0, -1.0].iter() {
+      let delta = m * w / 3.0; let (sd, cd) = f64::sin_cos(delta);
+      let cv = [vp[0] * cd - t[0] * sd, vp[1] * cd - t[1] * sd, vp[2] * cd - t[2] * sd];
+      let (clon, clat) = (cv[1].atan2(cv[0]).rem_euclid(TWO_PI), cv[2].atan2((cv[0] * cv[0] + cv[1] * cv[1]).sqrt()));
+      v.push(Case::new("bsd").f("r", w * (1.0 + sgn * m)).f("lon", clon).f("lat", clat).f("qlon", q.0).f("qlat", q.1).u("wd", d as u64).s("cls", if sgn > 0.0 { "witness-above" } else { "witness-below" }));
+    } }
+  }
+  v
+}
+
 fn gen_bsd(rng: &mut Rng, thr: &[f64]) -> Case {
   let d = rng.below(30) as usize;
   let u = *rng.pick(&[1e-12, 1e-9, 1e-6, 1e-3, 0.01, 0.02, 0.03, 0.05, 0.1, 0.3, 0.49]);
@@ -145,6 +165,7 @@ fn gen_bsd(rng: &mut Rng, thr: &[f64]) -> Case {
 
 pub fn judge_bsd(ctx: &mut Ctx, c: &Case, thr: &[f64]) {
   let (r, lon, lat) = (c.gf("r"), c.gf("lon"), c.gf("lat"));
+  if !(r < thr[0]) { return; } // refusal of larger radii is checked in bsd_table
   ctx.eval();
   let d = match catch(|| cdshealpix::best_starting_depth(r)) { Ok(d) => d, Err(e) => { ctx.violation("best_starting_depth-panics-below-the-depth0-limit", c.clone(), e); return; } };
   // linear scan of the bisected thresholds: deepest depth whose limit still exceeds r
@@ -157,7 +178,16 @@ pub fn judge_bsd(ctx: &mut Ctx, c: &Case, thr: &[f64]) {
   let hc = layer.hash(lon, lat);
   let ng = layer.neighbours(hc, true).values_vec();
   let mut bad: Option<((f64, f64), u64)> = None;
-  for k in 0..96 { let p = point_at(lon, lat, r * (1.0 - 1e-9), (k as f64 + 0.25) * TWO_PI / 96.0); let h = layer.hash(p.0, p.1); if !ng.contains(&h) { bad = Some((p, h)); break; } }
+  if c.get("qlon").is_some() { // probe on the geodesic from the centre through q, at distance r(1 - 1e-9)
+    let (vc, vq) = (v3((lon, lat)), v3((c.gf("qlon"), c.gf("qlat")))); let cq = dot(vc, vq);
+    let mut t = [vq[0] - cq * vc[0], vq[1] - cq * vc[1], vq[2] - cq * vc[2]]; let nt = norm(t);
+    if nt > 0.0 { t = [t[0] / nt, t[1] / nt, t[2] / nt]; let (sr, cr) = f64::sin_cos(r * (1.0 - 1e-9));
+      let pv = [vc[0] * cr + t[0] * sr, vc[1] * cr + t[1] * sr, vc[2] * cr + t[2] * sr];
+      let p = (pv[1].atan2(pv[0]).rem_euclid(TWO_PI), pv[2].atan2((pv[0] * pv[0] + pv[1] * pv[1]).sqrt()));
+      let h = layer.hash(p.0, p.1); if !ng.contains(&h) { bad = Some((p, h)); }
+      ctx.hard("bsd:thinnest-cell-witness", &[r.to_bits(), c.gu("wd")]); }
+  }
+  if bad.is_none() { for k in 0..96 { let p = point_at(lon, lat, r * (1.0 - 1e-9), (k as f64 + 0.25) * TWO_PI / 96.0); let h = layer.hash(p.0, p.1); if !ng.contains(&h) { bad = Some((p, h)); break; } } }
   let ratio = r / thr[d as usize];
   let tl = trans_lat();
   let dl = { let m = lon.rem_euclid(PI / 2.0); m.min(PI / 2.0 - m) };
